@@ -38,9 +38,10 @@ in what the objects remember, not in what they emit).
 
 Measured (machine shared with other jobs, load average 80-90 on 16 cores, so CPU
 time is the meaningful number):
-  quick    882,788 judged writes, ~5.1 k outcome signatures, ~220-270 CPU-s
+  quick    882,788 judged writes, ~5.1 k outcome signatures, ~190-270 CPU-s
            (41 s wall with 6 workers when the machine was quieter; ~15 s on 16 idle cores)
-  thorough 5,792,724 judged writes, ~1600 CPU-s (~2 min on 16 idle cores)
+  thorough 5,792,724 judged writes, ~5.2 k outcome signatures, ~1540 CPU-s
+           (1327 s wall with 6 workers at load 90; ~2 min on 16 idle cores)
 """
 import io
 import itertools
